@@ -85,6 +85,9 @@ def run_selftest(pid: str | None = None, verbose: bool = True, jobs: int = 16) -
 
     pids = all_pids()
     muts = [m for m in MUTATIONS if pid is None or pid in m["expect"] or m.get("quiet")]
+    only = os.environ.get("SA_SELFTEST_ONLY")
+    if only:
+        muts = [m for m in muts if any(m["id"].startswith(o) for o in only.split(","))]
     if not muts:
         if verbose:
             print(f"[selftest] no mutation registered for {pid}")
